@@ -42,6 +42,42 @@ CHECKS['C07'] = dict(
    text='Theorems for every item list: a balanced publisher writes each frame to exactly one branch and un-requests only that branch; the rejoined stream is strictly increasing; '
         'first hop never prefetches; one-source/one-id of balanced sets by oracle; machines compared with the real classes.',
    note=PROTO_NOTE, technique='Coq proof (publish-shape invariant over all runs, ordering invariant) + differential correspondence', ref='§5, §6 C07')
+CHECKS['C08'] = dict(
+   text='Theorems over the Gallina transliteration of Filter.run (nested try/finally as an exception monad) for EVERY script of callback outcomes, policies and loop lengths: '
+        'shutdown exactly once iff setup completed, fini / init-stage MQ teardown / stop_logging counts, stop event set last, clean exits never escape, loop outcome laws, '
+        'obey table, exit_after law; the model is compared with the real Filter.run (scripted subclass over the in-memory ZeroMQ) on every run.',
+   note=NOTE_COMMON + 'Whole-pipeline termination is explored, not proved. Callbacks are atomic w.r.t. the stop event.',
+   technique='Coq proof (total function over scripts; counting lemmas; induction over the loop) + differential correspondence', ref='§6 C08')
+CHECKS['C18'] = dict(
+   text='Theorem: for every lifecycle script and EVERY interleaving of the heartbeat thread the emitted history is empty or START RUNNING* T with exactly one terminal T; '
+        'COMPLETE only if run() returned normally; the model history is compared with the events a capturing client receives from the real OpenFilterLineage under the real Filter.run.',
+   note=NOTE_COMMON + 'Interleavings are at the granularity of emitter-lock critical sections; one run per emitter.',
+   technique='Coq proof (phase invariants of the emitter over all interleavings) + differential correspondence', ref='§6 C18')
+CHECKS['C09'] = dict(
+   text='Theorems over the Gallina model of MQ.frames2topicmsgs / topicmsgs2frames on the frame heap: decode(encode x) ~ x for every frame set and outputs_jpg, message layout 1-3 parts; '
+        'JPEG and the JSON text codec enter as Section hypotheses; the model runs against the real functions (stand-in and real JPEG codec) on every run.',
+   note=NOTE_COMMON + 'Hypotheses: an encoding starts with ff d8, decode(encode) keeps the declared shape, json_loads(json_dumps v) = v. JPEG numeric tolerance is checked on the implementation only.',
+   technique='Coq proof (round trip over the heap model) + differential correspondence', ref='§6 C09')
+CHECKS['C10'] = dict(
+   text='Theorems for EVERY operation sequence from the empty heap over the Gallina model of frame.py (array heap + frame heap): views fresh, cached only for read-only sources, no aliasing of NEW copies, '
+        'read-only never made writable, cached JPEG valid; refutation witness for the pinned ro_rgb/ro_bgr rule; stepwise comparison (pixels, flags, shares_memory) with the real Frame class.',
+   note=NOTE_COMMON + 'JPEG via Section hypotheses; GRAY by the OpenCV 4 fixed-point formula (validated).',
+   technique='Coq proof (heap invariant by induction over op sequences) + differential correspondence', ref='§6 C10')
+CHECKS['C11'] = dict(
+   text='Theorems for all inputs: parse_topics / parse_options / split_commas are inverse to rendering on exactly stated valid domains; normalize_config idempotent for Filter, Util, VideoIn, ImageIn, VideoOut, ImageOut, Webvis '
+        '(Recorder up to dict order, MQTTOut partial, REST refuted); text form = structured form; all ten classes compared with the real normalize_config.',
+   note=NOTE_COMMON + "Known findings: '!ident=' inside passwords, REST double leading slash.",
+   technique='Coq proof (string/list induction) + differential correspondence', ref='§6 C11')
+CHECKS['C12'] = dict(
+   text='Theorems for every filter list accepted by the model of parse_filters: unique ids, id-sources resolved with suffix preserved, auto ports pairwise >= 2 apart and >= user port + 2, passthrough, autochain; '
+        'exhaustive <=3-filter command lines (thorough) and random 1-6 filter lines compared with the real parse_filters.',
+   note=NOTE_COMMON + 'Known findings: same explicit port given twice by the user; --ipc name clash.',
+   technique='Coq proof (induction over filter lists, scan/resolve invariants) + differential correspondence', ref='§6 C12')
+CHECKS['C15'] = dict(
+   text='Theorems for all strings / config trees: exact masked form of a credential URI, secrecy (output independent of user and password), every string leaf of the logged config and of the START facets is masked; '
+        'refutation witnesses for the pinned walk; scanner model vs the real regex substitutions and captured logs / facets / meta.src of real filters.',
+   note=NOTE_COMMON + 'Known findings: empty user, comma lists without blanks, over-masking, scheme-stripped hosts of MQTTOut/Webvis/REST.',
+   technique='Coq proof (explicit regex scanner, tree induction) + differential correspondence', ref='§6 C15')
 NOT_YET = {}
 def main():
     props = [json.loads(l) for l in open(os.path.join(VERIF, 'properties.jsonl'))]
